@@ -20,16 +20,19 @@ Definition l1_overlap (v : version) : N :=
       end
   end.
 
-(* Known class K-stall (see known_findings.txt):
+(* Known class K-stall (see known_findings.txt): an ingest stall that no compaction may relieve.
    (a) level 0 is empty (ingest can be stalled on an empty level 0 only when a stall threshold
        is 0: nothing can ever shrink level 0 further);
-   (b) the stall condition holds but the mandatory-compaction condition does not (possible only
-       when a mandatory threshold is set above the corresponding stall threshold): the level-0
-       candidate is then taken only if its score is non-negative;
-   (c) max_open_files <= |L0| + |overlap in L1|: may_choose_compaction refuses the only
-       compaction that shrinks level 0. *)
+   (c) max_open_files is too small for the compaction out of level 0: may_choose_compaction (or
+       the file limit of find_best_compaction) refuses it.  When the mandatory-compaction
+       condition holds that compaction is level 0 plus its overlap in level 1; when it does not
+       (possible under a stall only with a mandatory threshold above its stall threshold) the
+       candidate must reach a level whose slice is empty to have a non-negative score, and the
+       bound used is the number of files in the tree. *)
 Definition known_stall (o : options) (v : version) : bool :=
-  is_nil (level0 v) || negb (should_mandatory o v) || (o_max_open_files o <=? len (level0 v) + l1_overlap v).
+  is_nil (level0 v) ||
+  (if should_mandatory o v then o_max_open_files o <=? len (level0 v) + l1_overlap v
+   else o_max_open_files o <=? len (all_files v)).
 
 (* the same class from the options alone (sufficient, not necessary) *)
 Definition options_safe (o : options) (v : version) : bool :=
